@@ -3,6 +3,7 @@ import XeofsProofs.Lemmas.Rot
 import XeofsProofs.Lemmas.Misc13
 import XeofsProofs.Props.C15
 import XeofsModel.Generated.Facts
+import XeofsProofs.Lemmas.RotModel
 /-!
 # C11 — rotation re-expresses the retained subspace without changing what it represents
 
@@ -83,5 +84,23 @@ theorem src_rotator_norm (ev nn : ℝ) : Gen.rotatorNorm ev nn = Real.sqrt (ev *
 
 /-- source obligation for `rot_sorted` after a refit: every rotator fit clears the flag that guards the re-sorting -/
 theorem src_rotator_fit_resets_sorted : Gen.eofRotatorFitResetsSorted = true ∧ Gen.cpccaRotatorFitResetsSorted = true := by decide
+
+/-- **rot_reconstruction on the executable model** (`XM.rotFit`, the definition the driver runs next to
+`EOFRotator._fit_algorithm`): for every rotation matrix `R` with `RinvT = (R⁻¹)ᴴ`, every ±1 sign choice and every ordering `σ`
+of the modes, reconstructing from the rotated scores and components gives `scores₀ · comps₀ᴴ`, the reconstruction from the same
+number of unrotated modes. The generated formulas enter through `Gen.rotatorLoadingScale`, `Gen.rotatorNorm`, `Gen.eofExpVar`. -/
+theorem model_rot_reconstruction {n p k : ℕ} (comps0 : XM.Mat p k 𝕜) (expvar0 : Fin k → ℝ) (scores0 : XM.Mat n k 𝕜)
+    (svals0 : Fin k → ℝ) (R RinvT : XM.Mat k k 𝕜) (sgn : Fin k → ℝ) (σ : Fin k ≃ Fin k)
+    (hR : (RinvT.toMatrix)ᴴ * R.toMatrix = 1) (hsgn : ∀ j, sgn j * sgn j = 1)
+    (hev : ∀ j, XM.rotExpvar (ρ := ℝ) (XM.rotLoadings comps0 expvar0 R) j ≠ 0)
+    (hn : 1 < n) (hsv : ∀ j, 0 < svals0 j) (hexp : ∀ j, expvar0 j = Gen.eofExpVar (svals0 j) (n : ℝ)) :
+    (XM.rotInverse (XM.rotFit comps0 expvar0 scores0 svals0 R RinvT sgn σ)
+        (XM.rotFit comps0 expvar0 scores0 svals0 R RinvT sgn σ).scores).toMatrix
+      = scores0.toMatrix * (comps0.toMatrix)ᴴ :=
+  XP.RotM.model_rot_reconstruction comps0 expvar0 scores0 svals0 R RinvT sgn σ hR hsgn hev hn hsv hexp
+
+/-- the rotated explained variances of the model are non-negative (sums of squared moduli) -/
+theorem model_rot_expvar_nonneg {p k : ℕ} (L : XM.Mat p k 𝕜) (j : Fin k) : 0 ≤ XM.rotExpvar (ρ := ℝ) L j :=
+  XP.RotM.rotExpvar_nonneg L j
 
 end C11
